@@ -185,6 +185,13 @@ class Interp:
             return self.oracle(k, t, self)
         if k in ("param", "gvar", "this", "enum", "str", "lambda", "fnref", "method"):
             return self.oracle(k, t, self)
+        if k == "new":
+            try:
+                return self.oracle("new", t, self)
+            except Unknown:
+                raise
+            except Exception:
+                raise Unknown("expression kind new")
         raise Unknown("expression kind " + k)
 
     def _sub_ctor(self, x, depth=0):
